@@ -15,7 +15,7 @@ import tempfile
 from harness import core, batchdrv
 
 
-def run(chk):
+def _component_run(chk):
     proofs_ok = core.standard_proof_phase(chk, "C07", gen_needed=("BatchGen",))
     core.extra_props_phase(chk, "C07_system")     # the same contract as a guard of the system acceptor
     logging.disable(logging.CRITICAL)
@@ -81,7 +81,7 @@ def _oracles_only(chk, tmp):
                                      "impl_observation_real": obs[a], "impl_observation_dry_run": obs[b]})
 
 
-def replay(path):
+def _component_replay(path):
     """Re-run the stored input on impl and on the model; print both and the oracle verdicts."""
     core.ensure_env()
     logging.disable(logging.CRITICAL)
@@ -137,3 +137,25 @@ def replay(path):
     finally:
         shutil.rmtree(tmp, ignore_errors=True)
     return rc
+
+
+# ------------------------------------------------------------------------------------------------
+# system level (added by the coordinator): the real code in the virtual cluster over several rounds (the group
+# parameters are re-read from cluster_config.json by every later round), impl traces accepted by System.step (whose
+# ESbatch guard is the batch contract) and the Python monitors on what was really written to config_batch_N.json
+def run(chk):
+    _component_run(chk)
+    from harness import syscheck
+    syscheck.system_phase(chk, "C07", {'multigroup': 4, 'plain': 3, 'racing_try': 1}, n_quick=70, n_thorough=1500, also=())
+
+
+def replay(path):
+    import json as _json
+    try:
+        obj = _json.load(open(path))
+    except Exception:  # noqa
+        obj = {}
+    if isinstance(obj, dict) and "scenario" in obj and "schedule" in obj and "plan" in obj:
+        from harness import syscheck
+        return syscheck.replay_case(path)
+    return _component_replay(path)
